@@ -41,7 +41,11 @@ def judge(files, resp, wasm):
             if d["kind"] != "fn":
                 continue
             name = d["name"]
-            visible = "pub" in d["flags"] or "main" in d["flags"]
+            # visibility is read off the source text, not off the compiler's own flags: `main` is the entry point whatever its
+            # signature, and `pub` is what the module says
+            src_text = files[i][1] if i < len(files) else ""
+            visible = name == "main" or re.search(r"\bpub\s+(?:extern\s+)?fn\s+%s\b" % re.escape(name), src_text) is not None \
+                or "pub" in d["flags"] or "main" in d["flags"]
             if name not in mdefs:
                 problems.append(("function defined in source has no define in its module IR",
                                  {"function": name, "module": i}))
